@@ -157,6 +157,17 @@ def cz_cases(ctx):
             combos.append((vx[0], vy[0], bad, vy[0]))
         for bad in iy:
             combos.append((vx[0], bad, vx[0], vy[0]))
+        # an invalid list next to valid lists of the SAME length: only the rule that list breaks can reject the call
+        allx = [list(c) for k in (1, 2) for c in itertools.combinations(range(nx), k)]
+        ally = [list(c) for k in (1, 2) for c in itertools.combinations(range(ny), k)]
+        for bad in ix + [[nx - 1, nx - 1]]:
+            for mate in [l for l in allx if len(l) == len(bad)][:2]:
+                combos.append((bad, vy[0], mate, vy[0]))
+                combos.append((mate, vy[0], bad, vy[0]))
+        for bad in iy + [[ny - 1, ny - 1]]:
+            for mate in [l for l in ally if len(l) == len(bad)][:2]:
+                combos.append((vx[0], bad, vx[0], mate))
+                combos.append((vx[0], mate, vx[0], bad))
         for cx, cy, qx, qy in combos:
             valid = (all(sorted_strict(l) for l in (cx, cy, qx, qy)) and len(cx) == len(qx) and len(cy) == len(qy)
                      and all(0 <= i < nx for i in cx + qx) and all(0 <= j < ny for j in cy + qy))
@@ -181,6 +192,16 @@ def rearrange_cases(ctx):
             combos.append((bad, vy[0], vx[0], vy[0]))
         for bad in iy:
             combos.append((vx[0], vy[0], vx[0], bad))
+        allx = [list(c) for k in (1, 2) for c in itertools.combinations(range(2 * nx), k)]
+        ally = [list(c) for k in (1, 2) for c in itertools.combinations(range(ny), k)]
+        for bad in ix + [[2 * nx - 1, 2 * nx - 1]]:
+            for mate in [l for l in allx if len(l) == len(bad)][:2]:
+                combos.append((bad, vy[0], mate, vy[0]))
+                combos.append((mate, vy[0], bad, vy[0]))
+        for bad in iy + [[ny - 1, ny - 1]]:
+            for mate in [l for l in ally if len(l) == len(bad)][:2]:
+                combos.append((vx[0], bad, vx[0], mate))
+                combos.append((vx[0], mate, vx[0], bad))
         for sx, sy, dx, dy in combos:
             valid = (all(sorted_strict(l) for l in (sx, sy, dx, dy)) and len(sx) == len(dx) and len(sy) == len(dy)
                      and all(0 <= i < 2 * nx for i in sx + dx) and all(0 <= j < ny for j in sy + dy))
